@@ -273,6 +273,17 @@ def no_new_state(ck, rels, rule='STATE-no-memory'):
                 if isinstance(st, ast.Assign) and isinstance(st.targets[0], ast.Name) and _is_container(st.value):
                     cands[cname + '.' + st.targets[0].id] = st
         for qual, fn in m.functions.items():
+            # a mutable default argument that the function writes into is memory shared by all calls
+            a_ = fn.args
+            pos_ = a_.posonlyargs + a_.args
+            pairs_ = list(zip(pos_[len(pos_) - len(a_.defaults):], a_.defaults)) + [(p_, d_) for p_, d_ in zip(a_.kwonlyargs, a_.kw_defaults) if d_ is not None]
+            mutated_ = flow.mutated_names(fn)
+            for p_, d_ in pairs_:
+                if _is_container(d_):
+                    nmod += 1
+                    ck.ob(rule, m.loc(fn), p_.arg not in mutated_, '{}: the mutable default of parameter `{}` (`{}`) is {}'.format(
+                        qual, p_.arg, u(d_)[:40], 'only read' if p_.arg not in mutated_ else 'written into: it then carries content from one call to the next'),
+                        key='{}|default|{}|{}|{}'.format(rule, rel, qual, p_.arg))
             own_locals = {n.id for n in walk_local(fn) if isinstance(n, ast.Name) and isinstance(n.ctx, ast.Store)}
             for n in walk_local(fn):
                 tgt = None
